@@ -71,9 +71,9 @@ theorem plainOf_keys {l m : List (Name × Val)} (h : All₂ ParRel l m) :
     subst hk
     simp only [plainOf, omKeys] at ih ⊢
     rcases hv with rfl | ⟨hpa, hpb⟩
-    · cases va <;> simp [List.filterMap_cons, ih]
+    · cases va <;> simp [ih]
     · cases va <;> cases vb <;> simp [Val.isPlain] at hpa hpb
-      simp [List.filterMap_cons, ih]
+      simp [ih]
 
 theorem iaOf_eq {l m : List (Name × Val)} (h : All₂ ParRel l m) : iaOf l = iaOf m := by
   induction h with
@@ -86,9 +86,9 @@ theorem iaOf_eq {l m : List (Name × Val)} (h : All₂ ParRel l m) : iaOf l = ia
     subst hk
     simp only [iaOf] at ih ⊢
     rcases hv with rfl | ⟨hpa, hpb⟩
-    · cases va <;> simp [List.filterMap_cons, ih]
+    · cases va <;> simp [ih]
     · cases va <;> cases vb <;> simp [Val.isPlain] at hpa hpb
-      simp [List.filterMap_cons, ih]
+      simp [ih]
 
 theorem classify_plainEq {c c' : Content} (h : PlainEq c c') :
     ∀ (l st dy apn : List Name), classify c' l st dy apn = classify c l st dy apn := by
@@ -173,7 +173,7 @@ theorem selectNames_plainEq {c c' : Content} (h : PlainEq c c') (f : Flags) {n n
       · rename_i k hk _ k' hk'
         cases hn; cases hn'
         exact argNames_plainEq h hk hk' f
-  · simp only [hf, if_false] at hn hn'
+  · simp only [hf] at hn hn'
     cases hn; cases hn'
     exact argNames_nocache h _ _ f (by simpa using hf)
 
